@@ -55,12 +55,12 @@ func c08Run(c *vf.Ctx, sub string, explicit, lastKnown bool) {
 	if !c.Active(sub) {
 		return
 	}
-	n := c.N(60, 1200)
+	n := c.N(60, 3000)
 	if explicit {
-		n = c.N(30, 400)
+		n = c.N(30, 1200)
 	}
 	if lastKnown {
-		n = c.N(24, 300)
+		n = c.N(24, 800)
 	}
 	ids := allIdents()
 	for i := 0; i < n; i++ {
